@@ -19,7 +19,9 @@ RULE = (
     "Workflow.create must succeed iff an independent reference validator (unique refs, no self edge, all refs known, "
     "acyclic by DFS) accepts, and may raise only InvalidStageGraphError / CircularDependencyError; topological_sort of "
     "every accepted graph is checked by a postcondition (permutation of the top-level stages, every stage after all its "
-    "requisites). (b) expressions: seeded grammar covering every ast node the evaluator names and unsupported ones "
+    "requisites); the engine's second computed order - the order in which the store merges a starting stage's ancestors "
+    "(its own sort in persistence/sqlite/queries.py), made observable by list outputs - is held to the same postcondition "
+    "for every stage of a quarter of the accepted graphs. (b) expressions: seeded grammar covering every ast node the evaluator names and unsupported ones "
     "(calls, lambdas, comprehensions, f-strings, walrus, starred, slices, binary ops, dict / set displays, await / yield), "
     "every comparison / boolean / unary operator over operands {None, bool, int, float, str, list, tuple, dict, nested, "
     "missing name}, attribute / subscript chains, garbage / unicode / empty strings, nesting depth <= 40, against random "
@@ -30,7 +32,7 @@ RULE = (
     "= (validity classes) / (top-level ast node, operator, operand types, outcome class)."
 )
 ASSUMPTIONS = ["nesting depth of generated expressions <= 40 (deeper inputs hit CPython's recursion limit, outside what the property's 'grammar' calls for)", "contexts are JSON-representable values"]
-MIN_OBS = {"graphs_checked": {"quick": 3000, "thorough": 100000}, "expressions_checked": {"quick": 20000, "thorough": 1000000}, "audit_events_seen": {"quick": 20000, "thorough": 600000}}
+MIN_OBS = {"graphs_checked": {"quick": 3000, "thorough": 100000}, "expressions_checked": {"quick": 20000, "thorough": 1000000}, "audit_events_seen": {"quick": 20000, "thorough": 600000}, "merge_orders_checked": {"quick": 500, "thorough": 5000}}
 TIMEOUT = {"quick": 800, "thorough": 3400}
 
 
@@ -171,9 +173,57 @@ def _graphs(case: dict) -> dict:
                 for q in s.requisite_stage_ref_ids:
                     if pos[q] >= pos[s.ref_id]:
                         out.append(viol("C20/sort-order-wrong", f"{s.ref_id} listed before its requisite {q}: {[x.ref_id for x in order]}"))
+            # the engine's second computed order: the order in which a starting stage's ancestors are merged
+            # (persistence/sqlite/queries.py has its own sort); observed through list outputs, which are concatenated
+            if 3 <= len(top) <= 9 and not any(s.parent_stage_id for s in wf.stages) and obs["merge_orders_checked"] < case["n"] // 4 + 2:
+                out += _merge_order(wf, g, obs)
         if sample is None and classes:
             sample = {"graph": g, "injected": sorted(classes), "reference": want, "engine": got}
     return {"violations": _uniq(out), "obs": dict(obs), "keys": sorted(keys), "sample": sample}
+
+
+def _merge_order(wf, g, obs: Counter) -> list[dict]:
+    import os
+
+    from stabilize.persistence.sqlite import SqliteWorkflowStore
+
+    from .. import env
+
+    path = os.path.join(env.scratch_dir(), f"c20-{os.getpid()}.db")
+    for ext in ("", "-journal", "-wal", "-shm"):
+        if os.path.exists(path + ext):
+            os.remove(path + ext)
+    store = SqliteWorkflowStore(f"sqlite:///{path}", create_tables=True)
+    out = []
+    try:
+        for s in wf.stages:
+            s.outputs = {"order": [s.ref_id]}
+        store.store(wf)
+        reqs = {s.ref_id: set(s.requisite_stage_ref_ids) for s in wf.stages}
+        for s in wf.stages:
+            merged = store.get_merged_ancestor_outputs(wf.id, s.ref_id).get("order") or []
+            obs["merge_orders_checked"] += 1
+            anc: set = set()
+            todo = list(reqs[s.ref_id])
+            while todo:
+                x = todo.pop()
+                if x not in anc:
+                    anc.add(x)
+                    todo += list(reqs[x])
+            if sorted(merged) != sorted(anc):
+                out.append(viol("C20/ancestor-merge-not-the-ancestor-set", f"graph {g}: {s.ref_id} merged {merged}, ancestors {sorted(anc)}"))
+                continue
+            pos = {r: i for i, r in enumerate(merged)}
+            for r in merged:
+                for q in reqs[r]:
+                    if pos[q] >= pos[r]:
+                        out.append(viol("C20/ancestor-merge-order-wrong", f"graph {g}: for {s.ref_id} ancestor {r} merged before its requisite {q}: {merged}"))
+    finally:
+        try:
+            store.close()
+        except Exception:
+            pass
+    return out
 
 
 # ---------------------------------------------------------------------------
